@@ -62,7 +62,7 @@ type Case struct {
 	CustomOpen bool   `json:"custom_open"`
 	How        string `json:"how"`   // execprogram | execute | reused (an earlier run with all flags off, then this one) | reused-after-restricted (earlier run with all flags on)
 	Where      string `json:"where"` // begin | rule | function | end
-	Operand    string `json:"operand"` // "", "args" (Config.Args) or "argv" (ARGV set in BEGIN): a file operand for the main loop / plain getline
+	Operand    string `json:"operand"` // "", "args" (Config.Args) or "argv" (ARGV set in BEGIN): a file operand for the main loop / plain getline; "args-eq" / "argv-eq": the file is called operand=2024 (relative to the working directory) and Config.NoArgVars makes it a file operand, not an assignment
 	Shell      bool   `json:"shell"`   // a custom Config.ShellCommand that leaves a trace of every start
 }
 
@@ -76,7 +76,7 @@ func genCase(t *rapid.T) Case {
 	if rapid.IntRange(0, 3).Draw(t, "final") == 0 {
 		c.Steps = append(c.Steps, Step{Kind: rapid.SampledFrom(finalKinds).Draw(t, "fkind")})
 	}
-	c.Operand = rapid.SampledFrom([]string{"", "", "args", "argv"}).Draw(t, "operand")
+	c.Operand = rapid.SampledFrom([]string{"", "", "", "args", "args", "argv", "argv", "args-eq", "argv-eq"}).Draw(t, "operand")
 	c.Shell = rapid.Bool().Draw(t, "shell")
 	return c
 }
@@ -169,6 +169,9 @@ func program(c Case) string {
 	if c.Operand == "argv" {
 		sb.WriteString("BEGIN { ARGV[1] = D \"/operand\"; ARGC = 2 }\n")
 	}
+	if c.Operand == "argv-eq" {
+		sb.WriteString("BEGIN { ARGV[1] = \"operand=2024\"; ARGC = 2 }\n")
+	}
 	switch c.Where {
 	case "begin":
 		sb.WriteString("BEGIN {\n" + body.String() + "}\n")
@@ -210,6 +213,19 @@ func run(x *h.Ctx, c Case) string {
 		}
 	}
 	os.WriteFile(filepath.Join(dir, "operand"), []byte("SECRET-OPERAND-1\nSECRET-OPERAND-2\n"), 0o644)
+	operandBase := "operand"
+	if strings.HasSuffix(c.Operand, "-eq") {
+		// a file whose name looks like an assignment; it has to be named relative to the working directory (one
+		// case runs at a time in this process)
+		operandBase = "operand=2024"
+		os.WriteFile(filepath.Join(dir, operandBase), []byte("SECRET-OPERAND-1\nSECRET-OPERAND-2\n"), 0o644)
+		if cwd, err := os.Getwd(); err == nil {
+			defer os.Chdir(cwd)
+		}
+		if err := os.Chdir(dir); err != nil {
+			return "harness: " + err.Error()
+		}
+	}
 	os.WriteFile(filepath.Join(dir, "mysh"), []byte("#!/bin/sh\necho started >> "+filepath.Join(dir, "sentinel-shell")+"\nexec /bin/sh \"$@\"\n"), 0o755)
 	before := snapshot(dir)
 	src := program(c)
@@ -226,6 +242,10 @@ func run(x *h.Ctx, c Case) string {
 		if c.Operand == "args" {
 			cfg.Args = []string{filepath.Join(dir, "operand")}
 		}
+		if c.Operand == "args-eq" {
+			cfg.Args = []string{"operand=2024"}
+		}
+		cfg.NoArgVars = strings.HasSuffix(c.Operand, "-eq")
 		if c.Shell {
 			cfg.ShellCommand = []string{filepath.Join(dir, "mysh"), "-c"}
 		}
@@ -425,7 +445,7 @@ func run(x *h.Ctx, c Case) string {
 					return fmt.Sprintf("%s was read although the custom OpenFile function never opened it\n%s", name, describe())
 				}
 			}
-			if (strings.HasPrefix(l, "rec ") || strings.HasPrefix(l, "plain 1 SECRET-OPERAND")) && seen["operand"] == 0 {
+			if (strings.HasPrefix(l, "rec ") || strings.HasPrefix(l, "plain 1 SECRET-OPERAND")) && seen[operandBase] == 0 {
 				return fmt.Sprintf("the file operand was read although the custom OpenFile function never opened it\n%s", describe())
 			}
 		}
